@@ -43,6 +43,26 @@ Theorem C19_no_bucket_after_shutdown :
 Proof. intros s H k. rewrite H. reflexivity. Qed.
 Print Assumptions C19_no_bucket_after_shutdown.
 
+(* Sequential use (the executable model the implementation is compared with): whatever the sequence
+   of gets, returns - of connections the caller holds or of new ones -, clean-ups and shutdown, every
+   connection is at one place at a time: pooled, closed or held; so none is closed twice, none is
+   handed out after it was closed, none is pooled twice. *)
+Require Maddy.Conc.PoolSeq Maddy.Conc.PoolSeqLemmas.
+Theorem C19_sequential_one_place_at_a_time :
+  forall cf good ops s held,
+    PoolSeqLemmas.wrun cf good PoolSeq.pst0 [] ops = Some (s, held) ->
+    NoDup (PoolSeqLemmas.pooled s ++ PoolSeq.p_closed s ++ held).
+Proof. exact PoolSeqLemmas.seq_one_place_at_a_time. Qed.
+Print Assumptions C19_sequential_one_place_at_a_time.
+
+(* the same in the form the monitor evaluates on sequential histories of the implementation *)
+Theorem C19_sequential_histories_pass_clause_3 :
+  forall cf good ops s held,
+    PoolSeqLemmas.wrun cf good PoolSeq.pst0 [] ops = Some (s, held) ->
+    forallb (fun t => Nat.leb (PoolCorr.count_n t (PoolSeq.p_closed s)) 1) (PoolSeq.p_closed s) = true.
+Proof. exact PoolSeqLemmas.seq_histories_pass_clause_3. Qed.
+Print Assumptions C19_sequential_histories_pass_clause_3.
+
 (* non-vacuity: a reachable state in which a pooled connection has been handed to a second actor *)
 Example C19_example :
   exists s, reach 2 (fun _ => false) (fun _ => false) (fun _ => true) s /\ acts s 1 = AHold 0 /\ loc s 0 = PHeld 1.
